@@ -12,8 +12,8 @@ PRF = ['HmacPRF', 'hmac-prf', 'hmac_prf', 'nope', 'AES-CBC', 'shake_128']
 SKE = ['AES-CBC', 'aes_cbc', 'aescbc', 'nope', 'HmacPRF', 'shake_128']
 PRP = ['BitwiseFPEPRP', 'bitwise-fpe-prp', 'HmacLubyRackoffPRP', 'nope', 'AES-CBC', 'shake_128']
 HASH = ['SHA1', 'sha256', 'md5', 'sha512', 'shake_128', 'nope', 'HmacPRF']
-IDS = [1, 2, 8, 16, 17, 0, -1]
-BLK = [1, 2, 3, 64, 0, -1]
+IDS = [1, 2, 8, 16, 17, 128, 0, -1]
+BLK = [1, 2, 3, 64, 600, 0, -1]          # 600 x 16 or 64 x 128 bytes: one block (one AES message) of several KiB
 
 FIELDS = {
     'CJJ14.PiBas': {'param_lambda': LEN, 'prf_f_output_length': LEN, 'prf_f': PRF, 'ske': SKE},
